@@ -39,6 +39,15 @@ def run(repo, rep, tier):
     _routing(repo, rep)
     _escape(repo, rep)
     _bytes(repo, rep)
+    # in text mode the whole template is one run of the interpolator: its
+    # loop (candidate search, '$' run parity, un-doubling, literal tail) is
+    # what "only ${...} and $$ are interpreted" rests on -- C06's loop-shape
+    # rules are part of this property as well
+    rep.rule("R20.4", "loop shape of Interpolator.__call__ (shared with "
+                      "C06.R06.4) and value conversion of a lone ${...}")
+    from .c06 import _loop
+    _loop(repo, rep, rule="R20.4")
+    _lone_value(repo, rep)
 
 
 def _routing(repo, rep):
@@ -277,3 +286,60 @@ def _bytes(repo, rep):
               f.qualname, "render() returns the rendered text encoded with "
               "the template's encoding (utf-8 by default)",
               construct="encode", where=L.where(f), detail=t)
+
+
+def _lone_value(repo, rep):
+    """A template that is exactly one ${expr} takes the single-node path of
+    the interpolator: the value is converted by emit_convert -- only None
+    is 'nothing to insert'; 0 / False / '' are values."""
+    ip = L.interp(repo)
+    mod = repo.module("chameleon.compiler")
+    if "emit_convert" not in mod.assigns:
+        raise AnalysisError("emit_convert vanished")
+    fac = ip._factory(mod.assigns["emit_convert"][-1], mod, "emit_convert")
+    if fac is None:
+        raise AnalysisError("emit_convert factory vanished")
+    import textwrap
+    tree = ast.parse(textwrap.dedent(fac.node[1]["source"]))
+    first = tree.body[0] if tree.body else None
+    ok = isinstance(first, ast.If) and \
+        src(first.test).replace(" ", "") == "targetisNone"
+    rep.check(ok, "R20.4", "chameleon.compiler.emit_convert", "the inline "
+              "conversion skips None only (identity test, first test): a "
+              "false value such as 0 is converted to text",
+              construct="convert-none-only",
+              detail=src(first.test) if isinstance(first, ast.If) else "")
+    # python expressions: the only rewriting of the expression text before
+    # it is parsed is line continuation and newline -> blank (the text of
+    # string literals inside ${...} must survive)
+    f = repo.func("chameleon.tales.PythonExpr.translate")
+    rew = []
+    for n in ast.walk(f.node):
+        if isinstance(n, ast.Assign) and src(n.targets[0]) == "string":
+            rew.append(src(n.value).replace(" ", ""))
+    # compare structurally instead of textually
+    okp = True
+    for n in ast.walk(f.node):
+        if isinstance(n, ast.Assign) and src(n.targets[0]) == "string":
+            v = n.value
+            good = False
+            if isinstance(v, ast.Call) and isinstance(v.func, ast.Attribute) \
+                    and src(v.func.value) in ("string", "expression"):
+                if v.func.attr == "strip" and not v.args:
+                    good = True
+                if v.func.attr == "replace" and len(v.args) == 2 and all(
+                        isinstance(a, ast.Constant) for a in v.args) and \
+                        v.args[0].value == "\n" and v.args[1].value == " ":
+                    good = True
+            if isinstance(v, ast.Call) and src(v.func) == "substitute" and \
+                    len(v.args) == 3 and src(v.args[0]) == "re_continuation":
+                good = True
+            if not good:
+                okp = False
+                rew = [src(v)]
+    rep.check(okp, "R20.4", f.qualname, "a python expression's text is only "
+              "stripped, joined over line continuations and has its newlines "
+              "turned into blanks before it is parsed (white space inside "
+              "string literals is left alone)",
+              construct="python-text-rewrites", where=L.where(f),
+              detail=str(rew)[:160])
